@@ -55,6 +55,7 @@ Definition is_regular_fd (s : kst) (fd : N) : bool :=
       match o_file o with
       | FPath k => match fs_get (k_fs s) k with Some (Reg _ _) => true | _ => false end
       | FAnon _ _ | FAnonDirty => true
+      | FPipe => false
       end
   | None => false
   end.
@@ -194,9 +195,17 @@ Inductive ckind :=
 | KSubshell     (* ( ) : redirections are performed by the parent *)
 | KNotFound     (* external utility that does not exist *)
 | KEmpty        (* redirections only: performed in a subshell *)
-| KExec.        (* exec without operands: redirections persist *)
+| KExec         (* exec without operands: redirections persist *)
+| KExecFail (interactive : bool).
+                (* exec with an operand that cannot be invoked: the redirections
+                   persist as well (Result::retain_redirs); a shell that is not
+                   interactive then exits (Divert::Abort) *)
 
 Record cmd := mkCmd { c_kind : ckind; c_redirs : list redir }.
+
+(* commands that keep their redirections when these succeed *)
+Definition exec_like (k : ckind) : bool :=
+  match k with KExec | KExecFail _ => true | _ => false end.
 
 Definition ofd_set (l : list (N * ofd)) (i : N) (o : ofd) : list (N * ofd) :=
   map (fun p : N * ofd => if N.eqb (fst p) i then (i, o) else p) l.
@@ -223,6 +232,7 @@ Definition stderr_write (s : kst) : kst :=
                 end
             | FAnon _ _ | FAnonDirty =>
                 with_ofd s (ofd_set (k_ofd s) (e_ofd e) (mkOfd FAnonDirty (o_r o) (o_w o) (o_app o)))
+            | FPipe => s
             end
       end
   end.
@@ -251,7 +261,118 @@ Definition run_cmd (nc : bool) (s : kst) (c : cmd) : kst * option kst * bool :=
   | KExec =>
       if ok then (preserve_redirs s1 stack, None, false)        (* should_retain_redirs *)
       else (undo_redirs (stderr_write s1) stack, None, true)
+  | KExecFail interactive =>
+      (* "cannot execute" is reported while the redirections are in effect *)
+      if ok then (preserve_redirs (stderr_write s1) stack, None, negb interactive)
+      else (undo_redirs (stderr_write s1) stack, None, true)
   end.
+
+(* ---- descriptors the shell opens for its own use ------------------------------ *)
+
+(* yash-env/src/io.rs move_fd_internal: the source is closed whether or not the
+   duplication succeeds *)
+Definition move_fd_internal (s : kst) (from : N) : kst * res N :=
+  if N.leb MIN_INTERNAL_FD from then (s, Ok from)
+  else
+    let (s1, r) := k_dup s from MIN_INTERNAL_FD true in
+    (k_close s1 from, r).
+
+(* source/semantics.rs open_file, startup/input.rs: open with O_CLOEXEC at the
+   lowest free slot, then move to 10 or above *)
+Definition open_internal (s : kst) (p : pth) : kst * option N :=
+  match k_open_cx s p with
+  | (s1, Ok fd) =>
+      match move_fd_internal s1 fd with
+      | (s2, Ok fd') => (s2, Some fd')
+      | (s2, Err _) => (s2, None)
+      end
+  | (s1, Err _) => (s1, None)
+  end.
+
+(* ---- pipes: command substitution and pipelines --------------------------------- *)
+
+(* command_subst.rs subshell_body: what the child does with the pipe before it
+   runs the command; None = it gives up *)
+Definition subst_child (s : kst) (r w : N) : option kst :=
+  let s1 := k_close s r in
+  if N.eqb w 1 then Some s1
+  else match k_dup2 s1 w 1 with
+       | (s2, true) => Some (k_close s2 w)
+       | (_, false) => None
+       end.
+
+(* pipeline.rs PipeSet::shift, in the parent *)
+Definition pipe_shift (s : kst) (prev : option N) (next : option (N * N)) (has_next : bool)
+  : kst * option N * option (N * N) * bool :=
+  let s1 := close_opt s prev in
+  let (s2, prev') :=
+    match next with
+    | Some (r, w) => (k_close s1 w, Some r)
+    | None => (s1, None)
+    end in
+  if has_next then
+    match k_pipe s2 with
+    | (s3, Ok rw) => (s3, prev', Some rw, true)
+    | (s3, Err _) =>
+        (* the pipeline is abandoned: the reader is no longer needed *)
+        (close_opt s3 prev', None, None, false)
+    end
+  else (s2, prev', None, true).
+
+(* PipeSet::move_to_stdin_stdout, in the child; None = it gives up *)
+Definition pipe_child (s : kst) (prev : option N) (next : option (N * N)) : option kst :=
+  let step1 :=
+    match next with
+    | Some (r, w) =>
+        let s1 := k_close s r in
+        if N.eqb w 1 then Some (s1, prev)
+        else
+          let moved :=
+            match prev with
+            | Some 1%N =>
+                match k_dup s1 1 0 false with
+                | (s2, Ok d) => Some (s2, Some d)
+                | (_, Err _) => None
+                end
+            | _ => Some (s1, prev)
+            end in
+          match moved with
+          | None => None
+          | Some (s2, prev2) =>
+              match k_dup2 s2 w 1 with
+              | (s3, true) => Some (k_close s3 w, prev2)
+              | (_, false) => None
+              end
+          end
+    | None => Some (s, prev)
+    end in
+  match step1 with
+  | None => None
+  | Some (s4, Some rd) =>
+      if N.eqb rd 0 then Some s4
+      else match k_dup2 s4 rd 0 with
+           | (s5, true) => Some (k_close s5 rd)
+           | (_, false) => None
+           end
+  | Some (s4, None) => Some s4
+  end.
+
+(* execute_multi_command_pipeline: k commands are still to be started.  Result:
+   the parent afterwards, what each started child's command sees, and whether
+   all pipes could be made. *)
+Fixpoint pipe_loop (s : kst) (prev : option N) (next : option (N * N)) (k : nat)
+    (acc : list (option kst)) : kst * list (option kst) * bool :=
+  match k with
+  | O => let '(s1, _, _, _) := pipe_shift s prev next false in (s1, acc, true)
+  | S k' =>
+      let '(s1, prev1, next1, ok) :=
+        pipe_shift s prev next (match k' with O => false | S _ => true end) in
+      if ok then pipe_loop s1 prev1 next1 k' (acc ++ [pipe_child s1 prev1 next1])
+      else (stderr_write s1, acc, false)     (* "cannot connect pipes", Divert::Interrupt *)
+  end.
+
+Definition run_pipeline (s : kst) (n : nat) : kst * list (option kst) * bool :=
+  pipe_loop s None None n [].
 
 (* A script: commands, compound commands and functions whose body is again a
    list of items run while the redirections of the compound command are in
@@ -260,6 +381,11 @@ Definition run_cmd (nc : bool) (s : kst) (c : cmd) : kst * option kst * bool :=
 Inductive item :=
 | ICmd (c : cmd)
 | IGroup (k : ckind) (rs : list redir) (body : list item)   (* k = KGroup or KFunction *)
+| IDot (via_command : bool) (rs : list redir) (p : pth) (body : list item)
+                               (* . p  /  command . p : the script is a list of items *)
+| ISubst (c : cmd)             (* a command with a command substitution among its words *)
+| IPipe (n : nat)              (* a pipeline of n >= 2 commands *)
+| IStartup (p : pth)           (* the shell opens the script it was started with *)
 | ILimit (l : option N)        (* setrlimit(RLIMIT_NOFILE) soft limit *)
 | INoclobber (b : bool).       (* set -C / set +C *)
 
@@ -311,6 +437,50 @@ Fixpoint run_item (sh : shell) (i : item) : list out * shell * bool :=
       else
         let s' := undo_redirs (stderr_write s1) stack in
         ([(None, s', false)], mkSh s' (sh_nc sh), false)
+  | IDot via rs p body =>
+      (* `.` is a special built-in: an error makes the shell exit, unless it is
+         run through `command` *)
+      let '(s1, stack, ok) := perform_redirs (sh_nc sh) (sh_k sh) rs [] in
+      if ok then
+        match open_internal s1 p with
+        | (s2, Some fd) =>
+            let fin := fun a => undo_redirs (k_close a fd) stack in
+            let '(ob, shb, ex) := run_list_with run_item (mkSh s2 (sh_nc sh)) body in
+            if ex then
+              ((Some s2, s2, false) :: patch_last fin ob, mkSh (fin (sh_k shb)) (sh_nc shb), true)
+            else
+              let s' := fin (sh_k shb) in
+              ((Some s2, s2, false) :: ob ++ [(None, s', false)], mkSh s' (sh_nc shb), false)
+        | (s2, None) =>
+            let s' := undo_redirs (stderr_write s2) stack in
+            ([(None, s', negb via)], mkSh s' (sh_nc sh), negb via)
+        end
+      else
+        let s' := undo_redirs (stderr_write s1) stack in
+        ([(None, s', negb via)], mkSh s' (sh_nc sh), negb via)
+  | ISubst c =>
+      (* the words are expanded before the redirections are performed; an
+         expansion error makes the shell exit *)
+      match k_pipe (sh_k sh) with
+      | (s1, Ok (r, w)) =>
+          let s2 := k_close (k_close s1 w) r in
+          let '(s', inside, ex) := run_cmd (sh_nc sh) s2 c in
+          ([(subst_child s1 r w, s', ex); (inside, s', ex)], mkSh s' (sh_nc sh), ex)
+      | (s1, Err _) =>
+          let s' := stderr_write s1 in ([(None, s', true)], mkSh s' (sh_nc sh), true)
+      end
+  | IPipe n =>
+      let '(s', children, ok) := run_pipeline (sh_k sh) n in
+      let ex := negb ok in
+      (* one step per child that was started (a child that gives up shows
+         nothing) *)
+      let steps := map (fun ch : option kst => (ch, s', ex)) children in
+      (match steps with [] => [(None, s', ex)] | _ => steps end, mkSh s' (sh_nc sh), ex)
+  | IStartup p =>
+      match open_internal (sh_k sh) p with
+      | (s', Some _) => ([(None, s', false)], mkSh s' (sh_nc sh), false)
+      | (s', None) => ([(None, s', true)], mkSh s' (sh_nc sh), true)
+      end
   end.
 
 Definition run_script (sh : shell) (is : list item) : list out :=
@@ -319,8 +489,12 @@ Definition run_script (sh : shell) (is : list item) : list out :=
 (* nothing in the item is meant to outlive it: no exec, no change of the limit *)
 Fixpoint transient (i : item) : bool :=
   match i with
-  | ICmd c => match c_kind c with KExec => false | _ => true end
+  | ICmd c => match c_kind c with KExec | KExecFail _ => false | _ => true end
   | IGroup _ _ body => forallb transient body
+  | IDot _ _ _ body => forallb transient body
+  | ISubst c => match c_kind c with KExec | KExecFail _ => false | _ => true end
+  | IPipe _ => true
+  | IStartup _ => false
   | ILimit _ => false
   | INoclobber _ => true
   end.
